@@ -11,6 +11,7 @@ import (
 	"sort"
 	"strconv"
 	"strings"
+	"sync"
 	"time"
 
 	"github.com/machship/mpath"
@@ -217,6 +218,7 @@ func cueValidateOnce(q, schema, cp string) (out cueOut) {
 			}
 			nb, _ := json.Marshal(tree)
 			out.JSON = string(nb)
+			noteResultTree(tree, tc.HasErrors(), q, schema, cp)
 		}
 	}
 	if err == nil && !tc.HasErrors() {
@@ -512,6 +514,7 @@ func init() {
 			fmt.Fprintln(os.Stderr, "no cue generator for", prop)
 			os.Exit(2)
 		}
+		c.flushResultTrees()
 		c.Finish()
 	}
 }
@@ -1144,4 +1147,138 @@ func genC15(c *Ctx) {
 		}
 	}
 	_ = sort.Strings
+}
+
+// ---------- the error status of result trees ----------
+
+// Every result tree met by a generator (C13-C16) is reduced to its kinds of nodes and their error flags; each distinct one goes to
+// the model once (`pos: tree`), which answers what HasErrors answers on it and whether some node carries an error text. The second
+// half is also an oracle on its own: HasErrors() is true exactly when some node of the marshalled tree carries an error text.
+var (
+	treeMu    sync.Mutex
+	treeSeen  = map[string]string{} // encoded tree -> "HE=.. ANY=.."
+	treeOrder []string
+	treeBad   []Violation
+)
+
+func encodeResultTree(n any) any {
+	m, ok := n.(map[string]any)
+	if !ok {
+		return nil
+	}
+	flag := func(x map[string]any) int {
+		if e, ok := x["error"]; ok && e != nil {
+			return 1
+		}
+		return 0
+	}
+	kids := func(key string) []any {
+		out := []any{}
+		if l, ok := m[key].([]any); ok {
+			for _, c := range l {
+				if e := encodeResultTree(c); e != nil {
+					out = append(out, e)
+				}
+			}
+		}
+		return out
+	}
+	switch m["partType"] {
+	case "Path":
+		return []any{"P", flag(m), kids("parts")}
+	case "LogicalOperation":
+		return []any{"L", flag(m), kids("parts")}
+	case "PathIdent":
+		out := []any{}
+		if f, ok := m["filter"].(map[string]any); ok {
+			cond := []any{}
+			if lo := encodeResultTree(f["logicalOperation"]); lo != nil {
+				cond = append(cond, lo)
+			}
+			out = append(out, []any{"F", flag(f), cond})
+		}
+		return []any{"I", flag(m), out}
+	case "Function":
+		ps := []any{}
+		if l, ok := m["functionParameters"].([]any); ok {
+			for _, p := range l {
+				pm, ok := p.(map[string]any)
+				if !ok {
+					continue
+				}
+				part := []any{}
+				if e := encodeResultTree(pm["part"]); e != nil {
+					part = append(part, e)
+				}
+				ps = append(ps, []any{"A", flag(pm), part})
+			}
+		}
+		return []any{"C", flag(m), ps}
+	}
+	return nil
+}
+
+func noteResultTree(tree any, has bool, q, schema, cp string) {
+	enc := encodeResultTree(tree)
+	if enc == nil {
+		return
+	}
+	b, _ := json.Marshal(enc)
+	b2i := map[bool]int{false: 0, true: 1}
+	anyErr := jsonHasError(tree)
+	ans := fmt.Sprintf("HE=%d ANY=%d", b2i[has], b2i[anyErr])
+	treeMu.Lock()
+	defer treeMu.Unlock()
+	if len(treeSeen) < 200000 {
+		if _, ok := treeSeen[string(b)+ans]; !ok {
+			treeSeen[string(b)+ans] = ans
+			treeOrder = append(treeOrder, string(b))
+		}
+	}
+	if has != anyErr && len(treeBad) < 20 {
+		treeBad = append(treeBad, Violation{Kind: "oracle", Query: q, QueryHex: hx(q), Expected: fmt.Sprintf("HasErrors() = %v (some node of the result carries an error text: %v)", anyErr, anyErr), Got: fmt.Sprintf("HasErrors() = %v", has),
+			Why: "HasErrors() does not say what the result tree says: an error text sits in a node and the status is false, or the other way round", Cls: "result-tree", Key: "haserrors:" + ans,
+			Extra: map[string]any{"schema": schema, "current_step": cp, "tree": string(b)}})
+	}
+}
+
+// flushResultTrees: the distinct trees as cases of their own (model: Mp/Tree.lean), and the violations of the oracle
+func (c *Ctx) flushResultTrees() {
+	treeMu.Lock()
+	defer treeMu.Unlock()
+	for _, v := range treeBad {
+		c.addViolation(v)
+	}
+	for _, t := range treeOrder {
+		for _, ans := range []string{"HE=0 ANY=0", "HE=1 ANY=1", "HE=0 ANY=1", "HE=1 ANY=0"} {
+			if _, ok := treeSeen[t+ans]; ok {
+				line := []byte(`{"pos":"tree","dom":true,"tree":` + t + `}`)
+				c.Record(line, ans, "result-tree", true, "result-tree|"+fmt.Sprint(len(t)/40), ans, nil)
+			}
+		}
+	}
+	c.Extra["result_trees_distinct"] = len(treeOrder)
+	c.Rule += "; every distinct result tree met (kinds of nodes and their error flags) is a case of its own: the model (Mp/Tree.lean) answers what HasErrors answers on it and whether some node carries an error text; oracle: HasErrors() is true exactly when some node of the marshalled tree carries an error text"
+}
+
+// jsonHasError: some node of the marshalled result carries an error text
+func jsonHasError(tree any) bool {
+	switch t := tree.(type) {
+	case map[string]any:
+		if e, ok := t["error"]; ok && e != nil {
+			return true
+		}
+		for _, v := range t {
+			if jsonHasError(v) {
+				return true
+			}
+		}
+	case []any:
+		for _, v := range t {
+			if jsonHasError(v) {
+				return true
+			}
+		}
+	}
+	return false
 }
